@@ -470,7 +470,9 @@ pub mod cff_width {
         while i < d.len() {
             let b0 = d[i];
             match b0 {
-                0..=21 => {
+                // 22-24 are CFF2 operators (vsindex, blend, vstore); a CFF2->CFF conversion may
+                // leave them behind, which is not this reader's business
+                0..=24 => {
                     let op = if b0 == 12 {
                         i += 1;
                         0x0c00 | *d.get(i).ok_or("DICT ends inside escape operator")? as u16
